@@ -14,6 +14,7 @@ mod s_opt;
 mod s_build;
 mod s_params;
 mod s_repro;
+mod s_wrapper;
 mod s_trace;
 
 fn main() {
@@ -45,6 +46,7 @@ fn main() {
         "ff" => s_ff::run(&mut out, seed, &tier),
         "sd" => s_sd::run(&mut out, seed, &tier),
         "trace" => s_trace::run(&mut out, &rest[0]),
+        "wrapper" => s_wrapper::run(&mut out, seed, &tier),
         "repro" => s_repro::run(&mut out, seed, &tier),
         "params" => s_params::run(&mut out, seed, &tier),
         "build" => s_build::run(&mut out, seed, &tier),
